@@ -83,7 +83,9 @@ class SArr(Sym):
         """A symbolic rank that the path condition forces to 1 or 2 becomes concrete."""
         if not isinstance(self.ndim, int):
             for k in (1, 2):
-                if I.ctx.entails(self.ndim == k):
+                # only what the path condition itself forces may be remembered: under the guard of a specification
+                # sub-expression (possibly contradictory with the path) anything is entailed
+                if I.ctx.entails_pc(self.ndim == k):
                     self.ndim = k
                     break
 
@@ -119,7 +121,11 @@ class SArr(Sym):
                 lo, ln = self.slice_bounds(idx[0], self.n0)
                 return SArr(2, ln, z3.IntVal(1), lambda i, j: a(i + lo, 0), self.dtype, False)
             raise Unsupported("index form on a 1-D array")
-        if self.ndim != 2:
+        if (not isinstance(self.ndim, int) and len(idx) == 2 and I.ctx.spec_mode
+                and not any(isinstance(q, (SSlice, slice)) or q is None for q in idx)):
+            # a [r, c] read inside a specification of an array whose rank the path has not fixed (yet): the entry function
+            return self.wrap_elem(a(self.norm_index(idx[0], self.n0, I), self.norm_index(idx[1], self.n1, I)))
+        if not isinstance(self.ndim, int) or self.ndim != 2:
             raise Unsupported("indexing an array of unknown rank")
         if len(idx) == 1:
             k = idx[0]
